@@ -5,5 +5,6 @@ CONSTANTS
   Tol = 0
   MaxRows = 2
   NKeys = 2
+  RankByLooks = FALSE
 CONSTRAINT Emit
 CHECK_DEADLOCK FALSE
